@@ -207,7 +207,7 @@ pub fn run(tier: Tier) -> i32 {
     let mut ctx = Ctx::new("C15", tier);
     let pre = preflight();
     let seed = ctx.seed;
-    let per = tier.n(4000, 40_000);
+    let per = tier.n(4000, 150_000);
     let mut tally = ctx.par(32, |s| shard(seed, s, per));
     let plus = ctx.par(4, |s| plus_for_space(seed, s, tier.n(10, 200)));
     tally.merge(plus);
